@@ -1682,12 +1682,56 @@ def _check_candidate_paths(res: Result, fi: FuncInfo) -> None:
             if isinstance(st.target, ast.Name):
                 lv[st.target.id] = covered_kind(st.iter) or (
                     "?" + norm(st.iter, 40))
+            n_ev = len(events)
             for b in st.body:
                 record(b, events, lv, in_loop=True)
+            if any(e[0] == "inter" for e in events[n_ev:]):
+                _early_exits(st)
             yield from walk(rest, events, guards, loopvars)
             return
         record(st, events, loopvars, in_loop=False)
         yield from walk(rest, events, guards, loopvars)
+
+    def _early_exits(loop):
+        """A loop that intersects the candidates per covered neighbour may
+        be left early only once the candidates are empty (an intersection of
+        the empty set stays empty); leaving it with candidates left skips
+        the adjacency test against the remaining covered neighbours."""
+        EMPTY = set()
+        for c in cand_vars:
+            EMPTY |= {f"not {c}", f"len({c}) == 0", f"len({c}) < 1",
+                      f"{c} == set()", f"0 == len({c})"}
+        def visit(stmts, tests):
+            for s in stmts:
+                if isinstance(s, (ast.Break, ast.Continue, ast.Return)):
+                    inst = (f"{fi.short}: early exit of the loop over "
+                            f"`{norm(loop.iter, 40)}`")
+                    if tests and tests[-1] in EMPTY:
+                        res.ok("R-CAND-SOUND", inst, fi.loc(s))
+                    elif tests and re.fullmatch(
+                            r"len\((\w+)\) (< ([2-9]|\d\d+)|<= ([1-9]\d*)|"
+                            r"== ([1-9]\d*))", tests[-1]) and re.match(
+                            r"len\((\w+)\)", tests[-1]).group(1) in cand_vars:
+                        res.bad("R-CAND-SOUND", inst, fi.loc(s),
+                                f"{fi.short}: the loop that intersects the "
+                                "candidates with the neighbour sets of the "
+                                f"covered neighbours' images is left when "
+                                f"`{tests[-1]}`: the remaining candidates are "
+                                "not tested for adjacency to the images of "
+                                "the other covered neighbours")
+                    else:
+                        res.unrecognised(
+                            "R-CAND-SOUND", inst, fi.loc(s),
+                            "early exit of the intersection loop under "
+                            f"`{tests[-1] if tests else 'no guard'}`")
+                elif isinstance(s, ast.If):
+                    visit(s.body, tests + [norm(s.test, 80)])
+                    visit(s.orelse, tests + ["<else>"])
+                elif isinstance(s, (ast.For, ast.While)):
+                    continue        # exits of an inner loop stay inside it
+                elif isinstance(s, (ast.With, ast.Try)):
+                    visit(s.body, tests + ["<block>"])
+        visit(loop.body, [])
 
     def record(st, events, loopvars, in_loop):
         if isinstance(st, ast.Assign) and len(st.targets) == 1 and isinstance(
